@@ -24,7 +24,7 @@ ASSUMPTIONS = [
 ]
 BUDGET = {"quick": 70, "thorough": 800}
 ROUNDS = {"thorough": 10}
-FLOORS = {"overlay.C06.judged": {"quick": 100, "thorough": 1500}, "overlay.C06.branch_lengths_judged": {"quick": 100, "thorough": 1500}, "validity_checks": {"quick": 1500, "thorough": 15000}, "round_trips_single": 300, "round_trips_batched": 300,
+FLOORS = {"overlay.C06.judged": {"quick": 100, "thorough": 1500}, "overlay.C06.branch_lengths_judged": {"quick": 100, "thorough": 1500}, "validity_checks": {"quick": 1500, "thorough": 15000}, "round_trips_single": 300, "round_trips_batched": 300, "revised_dates": 100, "edited_topologies": 100,
           "moves": 200, "moves_smooth_max": 20, "smooth_max_round_trips": 40, "keep_branch_lengths_checks": 100, "keep_kinds": 3, "transformed_inputs": 100, "reads_after_update": 300, "api_inplace_updates": 100, "float32_default_checks": 40, "postorder_option_checks": 20, "heterochronous": 300}
 
 
@@ -374,6 +374,86 @@ def _run_case(case):
         if got.shape != href.shape or np.abs(got - href).max() > 1e-10 * max(1.0, np.abs(href).max()):
             V.append(tt.viol("C06:heights-stale-after-in-place-update:api", "model built through the Python API: after an in-place update of the ratios / root height and fire_parameter_changed() the heights are %s, the recursion gives %s" % (
                 got[n:][:4], href[n:][:4]), case=case))
+    # the sampling dates are revised after the model was built and used (a corrected collection date): the taxa get their new dates, the
+    # model re-reads them (update_leaf_heights) and a ratio transform its bounds (update_bounds) - the model's own public refresh hooks, the
+    # ones its constructor uses; afterwards it is the tree of the new dates: valid, and invertible
+    if case["move"] == "none" and not V and case["dates_mode"] != "iso" and not case.get("smooth_rt") and n >= 3 and not case.get("transformed_inputs"):
+        import copy
+
+        case_d = copy.deepcopy(case)
+        perm = np.random.default_rng(len(case["newick"]) + n).permutation(n)
+        old_dates = [case["dates"][nm] for nm in case["names"]]
+        case_d["dates"] = {nm: old_dates[int(perm[i])] for i, nm in enumerate(case["names"])}
+        objs_d, dic_d = tt.load([phylo.taxa_json(case), gt.tree_json(case)])
+        tree_d = dic_d["tree"]
+        h_old = tree_d.node_heights.detach()
+        _ = tree_d.branch_lengths(), tree_d.transform.inv(h_old[..., n:])
+        for taxon in dic_d["taxa"]:
+            taxon["date"] = case_d["dates"][taxon.id]
+        tree_d.update_leaf_heights()
+        if hasattr(tree_d.transform, "update_bounds"):
+            tree_d.transform.update_bounds()
+        for pid in ("tree.ratios", "tree.root_height", "tree.shifts"):
+            if pid in dic_d:
+                dic_d[pid].tensor = dic_d[pid].tensor.detach().clone()  # (dirties the model's caches)
+        C["revised_dates"] = 1
+        tree_saved, tree = tree, tree_d
+        try:
+            nh_d = read("after the sampling dates were revised", refcase=case_d)
+        finally:
+            tree = tree_saved
+        if not V:
+            back = tt.as_np(tree_d.transform.inv(torch.tensor(np.asarray(nh_d)[..., n:], dtype=torch.float64)), "C06:not-a-tensor:" + tag, "transform.inv")
+            tol = _inverse_tolerance(case_d, x)
+            if tol is not None and (back.shape != x.shape or not bool(np.all(np.abs(back - x) <= tol))):
+                V.append(tt.viol("C06:inverse:%s:after-revised-dates" % tag, "after the sampling dates were revised (update_leaf_heights, update_bounds) inv(forward(x)) != x (max abs err %.3g, %d taxa, batch %s)" % (
+                    float(np.abs(back - x).max()) if back.shape == x.shape else float("nan"), n, B or "[]"), case=case_d))
+    # the topology is edited after the model was built and used (two leaves with different parents change places, what a tree-search move
+    # does), the nodes are re-indexed and the model refreshes its traversals with its own public hooks (setup_indexes, update_traversals,
+    # update_bounds, sort_indices - the sequence of its constructor); afterwards it is the tree of the new topology
+    if case["move"] == "none" and not V and not case.get("smooth_rt") and n >= 4 and not case.get("transformed_inputs"):
+        from torchtree.evolution.tree_model import setup_indexes
+
+        objs_t, dic_t = tt.load([phylo.taxa_json(case), gt.tree_json(case)])
+        tree_t = dic_t["tree"]
+        _ = tree_t.node_heights, tree_t.branch_lengths()
+        lv = sorted(tree_t.tree.leaf_node_iter(), key=lambda nd_: nd_.taxon.label)
+        pair = next(((a_, b_) for i_, a_ in enumerate(lv) for b_ in lv[i_ + 1:] if a_.parent_node is not b_.parent_node), None)
+        if pair is not None:
+            a_, b_ = pair
+            pa_, pb_ = a_.parent_node, b_.parent_node
+            pa_.remove_child(a_)
+            pb_.remove_child(b_)
+            pa_.add_child(b_)
+            pb_.add_child(a_)
+            setup_indexes(tree_t.tree)
+            tree_t.update_traversals()
+            if hasattr(tree_t.transform, "update_bounds"):
+                tree_t.transform.update_bounds()
+                tree_t.transform.sort_indices()
+            for pid in ("tree.ratios", "tree.root_height", "tree.shifts"):
+                if pid in dic_t:
+                    dic_t[pid].tensor = dic_t[pid].tensor.detach().clone()
+            C["edited_topologies"] = 1
+            bl_t = tt.as_np(tree_t.branch_lengths(), "C06:not-a-tensor:" + tag, "branch_lengths()").astype(float).reshape(-1, 2 * n - 2)
+            nh_t = tt.as_np(tree_t.node_heights, "C06:not-a-tensor:" + tag, "node_heights").astype(float).reshape(-1, 2 * n - 1)
+            want_t = dict(zip(case["names"], phylo.tip_heights(case)))
+            for r_, (h_, b_row) in enumerate(zip(nh_t, bl_t)):
+                bad = None
+                for nd_ in tree_t.tree.preorder_node_iter():
+                    if nd_.is_leaf() and h_[nd_.index] != want_t[nd_.taxon.label]:
+                        bad = ("tip-not-at-sampling-time", "tip %s at height %.12g, sampling time %.12g" % (nd_.taxon.label, h_[nd_.index], want_t[nd_.taxon.label]))
+                    elif nd_.parent_node is not None:
+                        ph_ = h_[nd_.parent_node.index]
+                        if h_[nd_.index] > ph_ + 1e-12 * max(1.0, abs(ph_)):
+                            bad = ("parent-younger-than-child", "node %d (height %.12g) is younger than its child %d (height %.12g)" % (nd_.parent_node.index, ph_, nd_.index, h_[nd_.index]))
+                        elif abs(b_row[nd_.index] - (ph_ - h_[nd_.index])) > 1e-12 * max(1.0, abs(ph_)):
+                            bad = ("branch-length", "branch above node %d is %.12g, parent height - child height = %.12g" % (nd_.index, b_row[nd_.index], ph_ - h_[nd_.index]))
+                    if bad:
+                        break
+                if bad:
+                    V.append(tt.viol("C06:%s:%s:after-topology-edit" % (bad[0], tag), "after two leaves changed places and the model refreshed its traversals: " + bad[1], case=case, row=r_))
+                    break
     fp = None
     if case["dates_mode"] != "iso" or n >= 4:
         fp = "%s|%s|%s|%s|%s" % (case["newick"], case["dates_mode"], tag, B, mv)
